@@ -85,14 +85,24 @@ class World:
                                strategy=lambda ctx: 0.0, max_attempts=cfg["retry"], deadline_s=1e6,
                                max_unknown_attempts=None, sleeper=lambda d: None)
         self.policy = AsyncPolicy(retry=retry, circuit_breaker=self.breaker)
+        self.foreign: list = []       # (call being driven, call whose operation was invoked instead)
+        self.ctx_call = None          # one shared `async with policy.context(...) as call:` object
 
     def new_call(self, cid: int, entry: str, abort_flag: list):
+        w = self
+
         async def op():
+            if w.current != cid:      # C12: a call made through a shared context runs ITS OWN operation
+                w.foreign.append((w.current, cid))
             r = await Suspend()
             if isinstance(r, BaseException):
                 raise r
             return r
         kw = {"abort_if": (lambda: abort_flag[0])} if self.cfg["abort_if"] else {}
+        if entry == "call" and self.cfg.get("shared_context"):
+            if self.ctx_call is None:
+                self.ctx_call = self.policy.context(**kw).call     # what `async with … as call` yields
+            return self.ctx_call(op)
         return (self.policy.call if entry == "call" else self.policy.execute)(op, **kw)
 
 
@@ -151,7 +161,7 @@ def play(cfg: dict, schedule: list) -> dict:
             except BaseException:  # noqa: BLE001
                 pass
             state[cid] = "done:closed-at-end"
-    return {"hist": w.hist, "state": state}
+    return {"hist": w.hist, "state": state, "foreign": w.foreign}
 
 
 def judge(cfg: dict, schedule: list, res: dict) -> tuple[str, list[dict], dict]:
@@ -230,6 +240,9 @@ def gen(rng: random.Random) -> tuple[dict, list]:
     cfg = {"threshold": rng.choice([1, 1, 2]), "window": rng.choice([3, 10]), "recovery": rng.choice([2, 5]),
            "trip": rng.choice([["TRANSIENT"], ["TRANSIENT", "UNKNOWN"]]), "retry": rng.choice([0, 0, 1, 2]),
            "abort_if": rng.random() < 0.3}
+    if rng.random() < 0.3:
+        cfg["shared_context"] = True      # after the other draws, so that older seeds keep their cases
+        cfg["retry"] = max(cfg["retry"], 1)
     n = rng.choice([2, 3, 4])
     sched: list = []
     started: list[int] = []
@@ -266,6 +279,12 @@ def run(tier: str, seed: int) -> dict:
     for (cfg, sched), res in zip(cases, results):
         k = len(res["hist"]) + 2
         fails += analyse(cfg, sched, res, out[pos:pos + k])
+        if res.get("foreign"):
+            fails.append({"property": "C12", "kind": "violation", "sig": "C12/context-shares-call-state",
+                          "detail": f"concurrent calls through one AsyncPolicy.context(): while call {res['foreign'][0][0]} was "
+                                    f"running, the operation of call {res['foreign'][0][1]} was invoked",
+                          "replay": json.dumps({"cfg": cfg, "schedule": sched})})
+        dist["shared_context" if cfg.get("shared_context") else "direct"] += 1
         end = out[pos + k - 1]
         pos += k
         dist["maxProbes=" + end.split()[1].split("=")[1]] += 1
